@@ -637,6 +637,10 @@ static void commit_entry(lp_id_t me, const struct ev_rec *e, double gvt, const c
 	size_t k = L->committed;
 	if(L->commit_broken)
 		return;
+	if(k >= R->n_seq && ref_truncated) {
+		L->commit_broken = true; /* beyond the horizon of the reference: nothing to compare with */
+		return;
+	}
 	if(k >= R->n_seq)
 		COMMIT_VIOLATION("committed-extra", "LP %llu: %s committed event #%zu (t=%g type=%u) that the sequential run never delivers (GVT=%g)",
 		    (unsigned long long)me, where, k, e->ts, e->type, gvt);
@@ -966,6 +970,7 @@ void verif_hook_msg_alloc(struct lp_msg *msg)
 {
 	if(!vt_self)
 		return;
+	sim_progress();
 	__asan_unpoison_memory_region(msg, sizeof(struct lp_msg));
 	struct buf_ent *e = buf_find(msg, true);
 	if(!e)
@@ -982,6 +987,7 @@ void verif_hook_msg_free(struct lp_msg *msg)
 {
 	if(!vt_self)
 		return;
+	sim_progress(); /* a loop that releases buffers (a long history at LP_FINI) is not a hang */
 	struct buf_ent *e = buf_find(msg, false);
 	buf_frees++;
 	bool was_listed_anti = false;
